@@ -2,6 +2,8 @@
 
 package sftp
 
+import "sync"
+
 //verif:constoverride (*github.com/pkg/sftp.packetManager).workerChan 8 2
 
 // Server-side histories of concurrent single-packet operations on one file:
@@ -87,4 +89,59 @@ func vh_C15_two_writes_read() {
 	vAssert(ok, "the read is answered with one byte of data")
 	vAssert(v == init || v == x || v == y, "the read returns a value the byte had under some serialisation")
 	vAssert(f.data[0] == x || f.data[0] == y, "final content is one of the written values")
+}
+
+// With the allocator and the controller goroutine: the request frames go
+// through the real recvPacket (pages tagged with getNextOrderID) as in Serve's
+// receive loop; a WRITE's payload lives in its receive page, so releasing or
+// re-tagging a page too early corrupts the data another request still uses.
+// Not registered: the schedule space (6 threads incl. the controller) does not
+// finish within budget (>348k paths in 10 min).
+//
+//verif:tier manual
+func vh_C15_alloc_write_read() {
+	vErrKinds = 0
+	init, x := vNondetU8(), vNondetU8()
+	svr := vNewServer(false, "")
+	f := &vMFile{name: "/o", data: []byte{init, 7}, yield: true}
+	svr.openFiles["1"] = f
+	cap := &vCapture{}
+	svr.pktMgr = newPktMgr(cap)
+	alloc := newAllocator()
+	svr.pktMgr.alloc, svr.serverConn.conn.alloc = alloc, alloc
+	w1, _ := (&sshFxpWritePacket{ID: 1, Handle: "1", Offset: 0, Length: 1, Data: []byte{x}}).MarshalBinary()
+	n := len(w1) - 4
+	w1[0], w1[1], w1[2], w1[3] = byte(n>>24), byte(n>>16), byte(n>>8), byte(n)
+	r2, _ := (&sshFxpReadPacket{ID: 2, Handle: "1", Offset: 0, Len: 1}).MarshalBinary()
+	n = len(r2) - 4
+	r2[0], r2[1], r2[2], r2[3] = byte(n>>24), byte(n>>16), byte(n>>8), byte(n)
+	s3, _ := (&sshFxpStatPacket{ID: 3, Path: "zzzzzzzzzzzzzzzzzzzzzzzz"}).MarshalBinary()
+	n = len(s3) - 4
+	s3[0], s3[1], s3[2], s3[3] = byte(n>>24), byte(n>>16), byte(n>>8), byte(n)
+	svr.serverConn.conn.Reader = &vReader{data: append(append(w1, r2...), s3...)}
+	var wg sync.WaitGroup
+	runWorker := func(ch chan orderedRequest) {
+		wg.Add(1)
+		go func() {
+			defer wg.Done()
+			svr.sftpServerWorker(ch)
+		}()
+	}
+	pktChan := svr.pktMgr.workerChan(runWorker)
+	for i := 0; i < 3; i++ { // Serve's receive loop
+		typ, b, err := svr.serverConn.recvPacket(svr.pktMgr.getNextOrderID())
+		vAssert(err == nil, "frame received")
+		pkt, err := makePacket(rxPacket{typ, b})
+		vAssert(err == nil, "frame decoded")
+		pktChan <- svr.pktMgr.newOrderedRequest(pkt)
+	}
+	vQuiesce() // everything that can be answered has been answered
+	vAssert(f.data[0] == x && f.data[1] == 7, "the write stored its own payload, neighbours untouched")
+	r := vFindResp(cap.pkts, 2)
+	if r != nil {
+		v, ok := vDataOf(r)
+		vAssert(ok && (v == init || v == x), "the read returns the content before or after the write, nothing else")
+	}
+	close(pktChan)
+	wg.Wait()
 }
